@@ -8,13 +8,17 @@
    NOT covered by a theorem (S/K only, harness/c10.py): the float values of the positions (cos/sin/sqrt/
    linspace; compared to 1e-12); single_plaquette / higher_coordination_number_example / wobbling ladder
    census (their positions come from cos/sin: checked on the implementation for n = 3..40 / 3..30);
-   polygon census of tilings of RANDOM unit cells (checked on the implementation); the census theorems are
-   bounded to the quantifier's size ranges (polygons_all_sizes, the translation-equivariance argument that
-   would remove the bound, was not attempted). *)
+   polygon census of tilings of RANDOM unit cells (checked on the implementation; C10_tile_plaquettes_all_sizes
+   reduces it, for all nx, ny, to a certificate of the cell that would have to be computed per cell).
+   The census, the areas, Euler's relation and two-sidedness of the four named tilings are proved for ALL sizes
+   >= 2 (C10_*_polygons_all_sizes, C10_areas_all_sizes; bottom of this file); C10_polygons_bounded (vm_compute
+   for the quantifier's ranges) is kept as an independent computation of the same facts. *)
 From Coq Require Import List ZArith Bool Arith.
 From Koala Require Import Gen.TilingGen Model.Lattice Model.Tiling Model.Examples
      Proofs.TilingFacts Proofs.TilingCount Proofs.ExamplesFacts Proofs.ExamplesIndex
-     Proofs.ExamplesCensus Proofs.ExamplesClaims.
+     Proofs.ExamplesCensus Proofs.ExamplesClaims
+     Proofs.LatticeFacts Proofs.WindingConvex Proofs.PeriodicRot Proofs.PeriodicFaces Proofs.PeriodicTile
+     Proofs.PeriodicExamples Proofs.PeriodicBlock Proofs.PeriodicGenerators Proofs.TileDegree.
 Import ListNotations.
 Open Scope Z_scope.
 
@@ -243,3 +247,187 @@ Example C10_polygons_nonvacuous :
   nV (to_lattice (honeycomb 3)) = 24%nat /\ nE (to_lattice (honeycomb 3)) = 36%nat /\
   wf_lattice (to_lattice (honeycomb 3)) = true /\ wf_lattice (to_lattice (tri_non 2 3)) = true.
 Proof. vm_compute. repeat split; reflexivity. Qed.
+
+(* ===== polygons_all_sizes: the polygon census WITHOUT a size bound (induction over the face walks, no vm_compute
+   over sizes).  Proofs/PeriodicRot.v, PeriodicFaces.v: in a lattice made of N translated copies of a base cell
+   (vertices n*ns+s, edges eid n e, copy n of base edge e joining cell n to cell tr (bc e) n, edge vectors the
+   base vectors rescaled by (al, be) > 0) the rotation system at every vertex is the base one, the dart successor
+   is the base successor transported (periodic_nd), every face walk is the copy  twalk t c'  of a rotation c' of a
+   base face, every face passes the three filters of the plaquette finder, and the multiset of side counts of
+   find_all_plaquettes is N copies of that of the base faces.  Proofs/PeriodicTile.v: tile_unit_cell c nx ny is
+   such a lattice for EVERY well-formed cell without (j,j) edges and ALL nx, ny >= 1, given a certificate (rots,
+   faces) for the cell that passes the boolean cell_cert_okb (independent of nx, ny) and the size condition
+   edges_okb (no face meets two copies of one base edge that coincide modulo (nx, ny); implied for all
+   nx, ny >= 2 by edges_smallb). *)
+Theorem C10_tile_plaquettes_all_sizes :
+  forall (c : unit_cell) (nx ny : Z) (rots faces : list (list (nat * bool))),
+  1 <= nx -> 1 <= ny -> wf_cell c = true -> cell_simple c = true ->
+  cell_cert_okb c rots faces = true -> edges_okb c nx ny faces = true ->
+  let L := tile_lattice c nx ny in
+  exists ps, find_all_plaquettes L = Some ps /\
+    Permutation.Permutation (map n_sides ps) (flat_map (fun _ => map (@length _) faces) (seq 0 (Z.to_nat (nx * ny)))) /\
+    (forall p, In p ps -> p_winding p = -1 /\ 0 < p_area2 p /\ NoDup (p_edges p)) /\
+    NoDup (flat_map plaq_darts ps) /\
+    (forall d, valid_dart L d <-> In d (flat_map plaq_darts ps)).
+Proof. exact tile_plaquettes. Qed.
+Print Assumptions C10_tile_plaquettes_all_sizes.
+
+Theorem C10_tile_edges_small :
+  forall c nx ny faces, 2 <= nx -> 2 <= ny -> edges_smallb c faces = true -> edges_okb c nx ny faces = true.
+Proof. exact edges_small_ok. Qed.
+Print Assumptions C10_tile_edges_small.
+
+(* the dart successor of a tiling is the successor of the cell, transported to every copy (translation
+   equivariance), and the rotation system is the cell's — the abstract statements the census rests on *)
+Theorem C10_periodic_faces_abstract :
+  forall (L : lattice), good L ->
+  forall (N ns ne : nat) (bj bk : nat -> nat) (bc : nat -> vec) (tr : vec -> nat -> nat)
+         (eid : nat -> nat -> nat) (ecell ebase : nat -> nat) (bvec : nat -> vec) (al be : Z)
+         (brot : nat -> list (nat * bool)),
+  0 < al -> 0 < be ->
+  (forall e, (e < ne)%nat -> (bj e < ns)%nat /\ (bk e < ns)%nat) ->
+  (forall a n, (n < N)%nat -> (tr a n < N)%nat) ->
+  (forall n, (n < N)%nat -> tr vzero n = n) ->
+  (forall a b n, (n < N)%nat -> tr a (tr b n) = tr (vadd a b) n) ->
+  (forall n e, (n < N)%nat -> (e < ne)%nat -> (eid n e < nE L)%nat) ->
+  (forall x, (x < nE L)%nat -> (ecell x < N)%nat /\ (ebase x < ne)%nat /\ eid (ecell x) (ebase x) = x) ->
+  (forall n e n' e', (n < N)%nat -> (e < ne)%nat -> (n' < N)%nat -> (e' < ne)%nat ->
+     eid n e = eid n' e' -> n = n' /\ e = e') ->
+  (forall n e, (n < N)%nat -> (e < ne)%nat ->
+     edge_at L (eid n e) = (n * ns + bj e, psh bc tr e n * ns + bk e)%nat) ->
+  (forall n e, (n < N)%nat -> (e < ne)%nat -> evec L (eid n e) = asc al be (bvec e)) ->
+  (forall e, (e < ne)%nat -> bvec e <> vzero) ->
+  (forall s e b, (s < ns)%nat -> (In (e, b) (brot s) <-> (e < ne)%nat /\ (if b then bj e else bk e) = s)) ->
+  (forall s, (s < ns)%nat ->
+     Sorted.StronglySorted (fun h1 h2 => Lattice.ang_lt (hvec bvec h2) (hvec bvec h1) = true) (brot s)) ->
+  forall bfaces : list (list (nat * bool)),
+  (forall c, In c bfaces -> c <> []) ->
+  (forall c, In c bfaces -> forall d, In d c -> (fst d < ne)%nat) ->
+  (forall c, In c bfaces ->
+     Forall (fun ab => bnd bj bk brot (fst ab) = Some (snd ab)) (cycp (0%nat, true) c)) ->
+  (forall c, In c bfaces -> vsum (map (dshift bc) c) = vzero) ->
+  NoDup (concat bfaces) ->
+  (forall e b, (e < ne)%nat -> In (e, b) (concat bfaces)) ->
+  (forall c, In c bfaces -> convex_ccw (map (hvec bvec) c)) ->
+  (forall c t, In c bfaces -> (t < N)%nat -> NoDup (walk_edges (twalk L bc tr eid t c))) ->
+  exists ps, find_all_plaquettes L = Some ps /\
+    Permutation.Permutation (map n_sides ps) (flat_map (fun _ => map (@length _) bfaces) (seq 0 N)) /\
+    (forall p, In p ps -> p_winding p = -1 /\ 0 < p_area2 p /\ NoDup (p_edges p)) /\
+    NoDup (flat_map plaq_darts ps) /\
+    (forall d, valid_dart L d <-> In d (flat_map plaq_darts ps)).
+Proof. exact periodic_plaquettes. Qed.
+Print Assumptions C10_periodic_faces_abstract.
+
+(* ===== tri_non_lattice, ALL nx, ny >= 2: nx*ny triangles and nx*ny nonagons and nothing else, V - E + F = 0,
+   every plaquette anticlockwise with positive area, every directed edge on exactly one plaquette *)
+Theorem C10_tri_non_polygons_all_sizes :
+  forall nx ny : Z, 2 <= nx -> 2 <= ny ->
+  let L := to_lattice (tri_non nx ny) in let N := Z.to_nat (nx * ny) in
+  exists ps, find_all_plaquettes L = Some ps /\
+    count_sides ps 3 = N /\ count_sides ps 9 = N /\ length ps = (2 * N)%nat /\
+    (forall k, k <> 3%nat -> k <> 9%nat -> count_sides ps k = 0%nat) /\
+    (nV L + length ps = nE L)%nat /\
+    (forall p, In p ps -> p_winding p = -1 /\ 0 < p_area2 p) /\
+    (forall e b, (e < nE L)%nat ->
+       exists! i, (i < length ps)%nat /\ In (e, b) (plaq_darts (nth i ps (mk_plaquette L [])))).
+Proof. exact tri_non_census_all_sizes. Qed.
+Print Assumptions C10_tri_non_polygons_all_sizes.
+
+(* non-vacuity of the certificate hypotheses: the tri-non cell's computed certificate passes, its faces are a
+   nonagon and a triangle, and the theorem's conclusion can be compared with the bounded computation *)
+Example C10_tri_non_certificate_nonvacuous :
+  wf_cell tri_non_cell = true /\ cell_simple tri_non_cell = true /\
+  cell_cert_okb tri_non_cell tri_non_rots tri_non_faces = true /\
+  edges_smallb tri_non_cell tri_non_faces = true /\ map (@length _) tri_non_faces = [9%nat; 3%nat] /\
+  edges_okb tri_non_cell 2 3 tri_non_faces = true /\ edges_okb tri_non_cell 1 3 tri_non_faces = false.
+Proof. vm_compute. repeat split; reflexivity. Qed.
+
+(* ===== honeycomb_lattice(n), ALL n >= 2 (n_vertical = round(n/sqrt 3) >= 1, so n = 2 has a single row of cells):
+   2*n*nv hexagons and nothing else, V - E + F = 0, every plaquette anticlockwise with positive area, every directed
+   edge on exactly one plaquette.  The model honeycomb n (edges numbered in six blocks) is shown to be a periodic
+   lattice over the 4-site cell hc_cell from C10_honeycomb_index_structure / C10_honeycomb_positions. *)
+Theorem C10_honeycomb_polygons_all_sizes :
+  forall n : Z, 2 <= n ->
+  let L := to_lattice (honeycomb n) in let F := Z.to_nat (2 * n * honeycomb_nv n) in
+  exists ps, find_all_plaquettes L = Some ps /\
+    count_sides ps 6 = F /\ length ps = F /\ (forall k, k <> 6%nat -> count_sides ps k = 0%nat) /\
+    (nV L + length ps = nE L)%nat /\
+    (forall p, In p ps -> p_winding p = -1 /\ 0 < p_area2 p) /\
+    NoDup (flat_map plaq_darts ps) /\ (forall d, valid_dart L d <-> In d (flat_map plaq_darts ps)).
+Proof. exact honeycomb_census_all_sizes. Qed.
+Print Assumptions C10_honeycomb_polygons_all_sizes.
+
+Example C10_honeycomb_certificate_nonvacuous :
+  wf_cell hc_cell = true /\ cell_simple hc_cell = true /\ cell_cert_okb hc_cell hc_rots hc_faces = true /\
+  map (@length _) hc_faces = [6%nat; 6%nat] /\ edges_okb hc_cell 2 1 hc_faces = true /\
+  edges_okb hc_cell 1 1 hc_faces = false.
+Proof. vm_compute. repeat split; reflexivity. Qed.
+
+(* ===== hex_square_oct_lattice(n), ALL n >= 2: n^2 squares, n^2 hexagons, n^2 octagons and nothing else *)
+Theorem C10_hso_polygons_all_sizes :
+  forall n : Z, 2 <= n ->
+  let L := to_lattice (hex_square_oct n) in let F := Z.to_nat (n * n) in
+  exists ps, find_all_plaquettes L = Some ps /\
+    count_sides ps 4 = F /\ count_sides ps 6 = F /\ count_sides ps 8 = F /\ length ps = (3 * F)%nat /\
+    (forall k, k <> 4%nat -> k <> 6%nat -> k <> 8%nat -> count_sides ps k = 0%nat) /\
+    (nV L + length ps = nE L)%nat /\
+    (forall p, In p ps -> p_winding p = -1 /\ 0 < p_area2 p) /\
+    NoDup (flat_map plaq_darts ps) /\ (forall d, valid_dart L d <-> In d (flat_map plaq_darts ps)).
+Proof. exact hso_census_all_sizes. Qed.
+Print Assumptions C10_hso_polygons_all_sizes.
+
+Example C10_hso_certificate_nonvacuous :
+  wf_cell hso_cell = true /\ cell_simple hso_cell = true /\ cell_cert_okb hso_cell hso_rots hso_faces = true /\
+  edges_okb hso_cell 2 2 hso_faces = true /\ length hso_faces = 3%nat.
+Proof. vm_compute. repeat split; reflexivity. Qed.
+
+(* ===== square_lattice(nx, ny), ALL nx, ny >= 2: nx*ny squares and nothing else (coordination 4 for all sizes:
+   C10_square_index_structure) *)
+Theorem C10_square_polygons_all_sizes :
+  forall nx ny : Z, 2 <= nx -> 2 <= ny ->
+  let L := to_lattice (square nx ny) in let F := Z.to_nat (nx * ny) in
+  exists ps, find_all_plaquettes L = Some ps /\
+    count_sides ps 4 = F /\ length ps = F /\ (forall k, k <> 4%nat -> count_sides ps k = 0%nat) /\
+    (nV L + length ps = nE L)%nat /\
+    (forall p, In p ps -> p_winding p = -1 /\ 0 < p_area2 p) /\
+    NoDup (flat_map plaq_darts ps) /\ (forall d, valid_dart L d <-> In d (flat_map plaq_darts ps)).
+Proof. exact square_census_all_sizes. Qed.
+Print Assumptions C10_square_polygons_all_sizes.
+
+Example C10_square_certificate_nonvacuous :
+  wf_cell sq_cell = true /\ cell_cert_okb sq_cell sq_rots sq_faces = true /\ map (@length _) sq_faces = [4%nat] /\
+  edges_okb sq_cell 2 2 sq_faces = true /\ edges_okb sq_cell 1 2 sq_faces = false.
+Proof. vm_compute. repeat split; reflexivity. Qed.
+
+(* ===== "areas summing to 1", ALL sizes: twice the (exact shoelace) areas of the plaquettes sum to 2 * scale^2.
+   General form for tilings: every plaquette has al*be = ny*nx times the area of its base face
+   (periodic_areas), and the faces of the cell have total area 1 (cell_area_okb, computed once per cell). *)
+Theorem C10_tile_area_all_sizes :
+  forall (c : unit_cell) (nx ny : Z) (rots faces : list (list (nat * bool))),
+  1 <= nx -> 1 <= ny -> wf_cell c = true -> cell_simple c = true ->
+  cell_cert_okb c rots faces = true -> edges_okb c nx ny faces = true -> cell_area_okb c faces = true ->
+  forall ps, find_all_plaquettes (tile_lattice c nx ny) = Some ps ->
+  area2_sum ps = 2 * scale (tile_lattice c nx ny) * scale (tile_lattice c nx ny).
+Proof. exact tile_area. Qed.
+Print Assumptions C10_tile_area_all_sizes.
+
+Theorem C10_areas_all_sizes :
+  (forall n, 2 <= n -> forall ps, find_all_plaquettes (to_lattice (honeycomb n)) = Some ps ->
+     area2_sum ps = 2 * scale (to_lattice (honeycomb n)) * scale (to_lattice (honeycomb n))) /\
+  (forall n, 2 <= n -> forall ps, find_all_plaquettes (to_lattice (hex_square_oct n)) = Some ps ->
+     area2_sum ps = 2 * scale (to_lattice (hex_square_oct n)) * scale (to_lattice (hex_square_oct n))) /\
+  (forall nx ny, 2 <= nx -> 2 <= ny -> forall ps, find_all_plaquettes (to_lattice (tri_non nx ny)) = Some ps ->
+     area2_sum ps = 2 * scale (to_lattice (tri_non nx ny)) * scale (to_lattice (tri_non nx ny))) /\
+  (forall nx ny, 2 <= nx -> 2 <= ny -> forall ps, find_all_plaquettes (to_lattice (square nx ny)) = Some ps ->
+     area2_sum ps = 2 * scale (to_lattice (square nx ny)) * scale (to_lattice (square nx ny))).
+Proof. exact areas_all_sizes_claim. Qed.
+Print Assumptions C10_areas_all_sizes.
+
+(* ===== degree regularity of tile_unit_cell for ALL sizes and EVERY well-formed cell: copy m of site s has the
+   degree of s in the cell *)
+Theorem C10_tile_degree_all_sizes :
+  forall (c : unit_cell) (nx ny m s : Z),
+  1 <= nx -> 1 <= ny -> wf_cell c = true -> 0 <= m < nx * ny -> 0 <= s < n_sites c ->
+  zdegree (tile_edges c nx ny) (n_sites c * m + s) = zdegree (uc_edges c) s.
+Proof. exact tile_degree_all_sizes. Qed.
+Print Assumptions C10_tile_degree_all_sizes.
